@@ -126,6 +126,8 @@ def handle : Handler := fun op args =>
       "ok " ++ showMat (Mat.const r c e)
   | "c04.ctor" => withArgs (pList pRats) args fun e => ansM (ofRows e)
   | "c04.block" => withArgs (do let r ← pNat; let c ← pNat; pMany (pMany pMat c) r) args fun g => ansM (blockCtor g)
+  -- block constructor on an arbitrary (possibly empty or ragged) list of rows of blocks: <#rows> then per row <#blocks> blocks…
+  | "c04.blockr" => withArgs (pList (pList pMat)) args fun g => ansM (blockCtor g)
   | "c04.outer" => withArgs (do let u ← pRats; let v ← pRats; pure (u, v)) args fun (u, v) => "ok " ++ showMat (outer u v)
   | "c04.dot" => withArgs (do let s ← pSp; let u ← pRats; let v ← pRats; pure (s, u, v)) args fun (s, u, v) =>
       if s = "m" ∨ s = "o" then ansR (dot u v) else "bad-args"
